@@ -245,17 +245,19 @@ def _violation(name, outcome, none_ok=False):
 FLAG_COMBOS = tuple(itertools.product((True, False), repeat=3))
 
 
-def _check_new_api(make_event, flags=((True, True, True),), unformattable=False):
-    """Run every public formatter of twisted.logger._format on fresh copies of the event."""
+def _check_new_api(make_event, flags=((True, True, True),), unformattable=False, lite=False):
+    """Run the public formatters of twisted.logger._format on fresh copies of the event.  lite: only formatEvent
+    and formatEventAsClassicLogText (the latter is documented as time stamp + system + formatEvent text, i.e. the
+    eventAsText text with default flags)."""
     bad = []
-    for name, call in (
-        ("formatEvent", lambda ev: _fmt_mod.formatEvent(ev)),
-        ("_formatEvent", lambda ev: _fmt_mod._formatEvent(ev)),
-    ):
+    calls = [("formatEvent", lambda ev: _fmt_mod.formatEvent(ev))]
+    if not lite:
+        calls.append(("_formatEvent", lambda ev: _fmt_mod._formatEvent(ev)))
+    for name, call in calls:
         v = _violation(name, _outcome(call, make_event()))
         if v:
             bad.append(v)
-    for tb, ts, sy in flags:
+    for tb, ts, sy in (() if lite else flags):
         v = _violation(
             "eventAsText(includeTraceback=%s, includeTimestamp=%s, includeSystem=%s)" % (tb, ts, sy),
             _outcome(_fmt_mod.eventAsText, make_event(), includeTraceback=tb, includeTimestamp=ts, includeSystem=sy))
@@ -273,20 +275,27 @@ def _check_new_api(make_event, flags=((True, True, True),), unformattable=False)
     return "; ".join(bad) if bad else None
 
 
+def repr_is_hostile(kind):
+    """Kinds whose repr misbehaves make the real code take its slowest path (it prints a traceback per value), so
+    the scopes below are narrower for them."""
+    return kind[1] not in ("ok", "sub")
+
+
 class _Base(Bounded):
     prop = "C55"
 
     def __init__(self):
-        self._nontrivial = set()
+        self._last = (None, False)
 
     def nontrivial(self, case):
-        return case in self._nontrivial
+        """A case counts as non-trivial when the real code actually performed a hostile operation (the harness asks
+        right after check(case))."""
+        return self._last[0] == case and self._last[1]
 
     def _run(self, case, thunk):
         before = _TOUCH[0]
         r = thunk()
-        if _TOUCH[0] != before:
-            self._nontrivial.add(case)
+        self._last = (case, _TOUCH[0] != before)
         return r
 
 
@@ -297,29 +306,39 @@ class _Base(Bounded):
 ALPHABET = "{}a.[]()!:r0"
 
 
+def _strings(alphabet, lo, hi):
+    for k in range(lo, hi + 1):
+        for t in itertools.product(alphabet, repeat=k):
+            yield "".join(t)
+
+
 class FormatStringAlphabet(_Base):
     title = ("every short string over the PEP-3101 / call-syntax delimiter alphabet as log_format of an event with "
-             "hostile values: formatEvent, _formatEvent, eventAsText, formatEventAsClassicLogText return text")
-    scope = ("log_format = every string over the 12 characters '{}a.[]()!:r0' of length <= 4 (thorough 5) and every "
-             "'{' + w + '}' with |w| <= 4 (thorough 5), as str; event keys a and r hold a callable hostile object whose "
-             ".a [0] [a] () lead to objects of the same kind; kinds: benign, str/repr/format all raise Exception, "
-             "str->bytes repr->None format->int (thorough: also all raise a non-Exception BaseException, all raise an "
-             "exception whose own str/repr raise, only repr raises); eventAsText with default flags; exhaustive")
-    functions = ["formatEvent", "_formatEvent", "eventAsText", "formatEventAsClassicLogText", "formatWithCall",
+             "hostile values: formatEvent and formatEventAsClassicLogText return text")
+    scope = ("log_format = every string over the 12 characters '{}a.[]()!:r0' of length <= L and every '{' + w + '}' "
+             "with |w| <= L, as str; event keys a and r hold a callable hostile object whose .a [0] [a] () lead to "
+             "objects of the same kind.  quick: L = 4 for the kinds benign, (str raises, repr fine, format raises) with "
+             "Exception and with a non-Exception BaseException; L = 3 for the kind str->bytes repr->None format->int.  "
+             "thorough: L = 5 for benign and the Exception kind; L = 4 for the BaseException kind, (str->None, repr "
+             "fine, format->bytes) and the repr-hostile kinds all three raise Exception, "
+             "str->bytes repr->None format->int; L = 3 for all three raise a non-Exception BaseException / an "
+             "exception whose own str and repr raise.  Exhaustive.  (Kinds with a misbehaving repr get the smaller "
+             "L only because the real code then takes a ~0.5 ms path per call.)")
+    functions = ["formatEvent", "eventAsText", "formatEventAsClassicLogText", "_formatEvent", "formatWithCall",
                  "formatUnformattableEvent"]
 
     def cases(self, tier, rng):
-        n = 4 if tier == "quick" else 5
-        kinds = [BENIGN, ("exc", "exc", "exc"), ("bytes", "none", "int")]
-        if tier != "quick":
-            kinds += [("base", "base", "base"), ("badexc", "badexc", "badexc"), ("ok", "exc", "dflt")]
-        for kind in kinds:
-            for k in range(0, n + 1):
-                for t in itertools.product(ALPHABET, repeat=k):
-                    yield ("".join(t), kind)
-            for k in range(n - 1, n + 1):  # shorter wrapped strings are among the free strings above
-                for t in itertools.product(ALPHABET, repeat=k):
-                    yield ("{" + "".join(t) + "}", kind)
+        if tier == "quick":
+            plan = [(BENIGN, 4), (("exc", "ok", "exc"), 4), (("base", "ok", "base"), 4), (("bytes", "none", "int"), 3)]
+        else:
+            plan = [(BENIGN, 5), (("exc", "ok", "exc"), 5), (("base", "ok", "base"), 4), (("none", "ok", "bytes"), 4),
+                    (("exc", "exc", "exc"), 4),
+                    (("bytes", "none", "int"), 4), (("base", "base", "base"), 3), (("badexc", "badexc", "badexc"), 3)]
+        for kind, n in plan:
+            for s in _strings(ALPHABET, 0, n):
+                yield (s, kind)
+            for s in _strings(ALPHABET, n - 1, n):  # shorter wrapped strings are among the free strings above
+                yield ("{" + s + "}", kind)
 
     def check(self, case):
         fmt, kind = case
@@ -327,7 +346,7 @@ class FormatStringAlphabet(_Base):
         def make():
             return {"log_format": fmt, "a": CallVal(kind), "r": CallVal(kind)}
 
-        return self._run(case, lambda: _check_new_api(make))
+        return self._run(case, lambda: _check_new_api(make, lite=True))
 
 
 # ---------------------------------------------------------------------------------------------------------------------
@@ -344,7 +363,14 @@ SPECS = ("", ":", ":>4", ":4", ":x", ":{w}", ":>{w}", ":{a}", ":{a!r}", ":{zz}",
 CONTEXTS = ("%s", "x%sy", "{{%s}}", "%s%s", "{%s", "%s}", "%s{a}", "{a}%s", "{{%s", "%s}}", "\n%s\n", "\xe9%s☃",
             "%s{a!r}", "{zz}%s")
 
-_CORE_FIELDS = ("a", "c()", "a.a", "a[0]", "a.c()", "ce()", "a.e", "zz", "w")
+CORE_FIELDS = ("a", "c()", "a.a", "a[0]", "a.c()", "ce()", "a.e", "zz", "w")
+# narrower lists used under kinds whose repr misbehaves (slow path of the real code)
+SLOW_ROOTS = ("a", "c()", "ce()", "cn()", "a()", "zz", "", "0")
+SLOW_PATHS = ("", ".a", ".z", ".e", ".n", ".k", "[0]", "[z]", "[e]", ".c()", ".ce()", ".cn()", ".a.a", ".c().a",
+              ".", "[", "[0]a", ".c()()")
+SLOW_FIELDS = ("a", "c()", "a.e", "zz")
+SLOW_SPECS = ("", ":>4", ":{w}", ":{a}", ":{zz}", ":{")
+SLOW_CONTEXTS = ("%s", "x%sy", "%s%s", "{%s", "%s}", "%s{a!r}")
 
 
 def _grammar_event(fmt, kind):
@@ -359,59 +385,89 @@ class HostileFields(_Base):
     scope = ("field = root (14: hostile value, callables that return it / raise Exception / BaseException / an "
              "exception with raising str, non-callable called, missing key, empty, '()', positional 0, int, log_format) "
              "+ path (41: attribute, index, call steps up to depth 3 that exist / are missing / raise, malformed "
-             "'.', '..a', '[', '[]', ']', '[0]a', '()()' ...) + conversion (7: none !s !r !a and malformed !x ! !rs); "
-             "quick: full root x path x conversion product under 9 value kinds, 9 core fields x 3 conversions x 21 "
-             "specifications (plain, nested fields, nested hostile / missing / raising fields, recursion past the "
-             "limit, malformed) x 14 contexts (literal text, escaped braces, unbalanced braces, repeated field, "
-             "neighbour field) under all 33 single-fault kinds (benign, str-subclass results, one of str/repr/format "
-             "or all of them raising Exception / BaseException / exception with raising str / returning bytes / None "
-             "/ int); thorough: full root x path x conversion product under all 33 kinds, core fields x "
-             "conversions x specs under all 720 (s, r, f) kinds, plus 20000 seeded random formats of 1..4 random "
-             "fields; eventAsText with default flags, and with all 8 flag combinations on the core fields")
+             "'.', '..a', '[', '[]', ']', '[0]a', '()()' ...) + conversion (7: none !s !r !a and malformed !x ! !rs) "
+             "+ specification (21: plain, nested fields, nested hostile / missing / raising fields, nesting past the "
+             "recursion limit, malformed) in a context (14: literal text, escaped / unbalanced braces, repeated field, "
+             "neighbour fields).  Value kinds (s, r, f): the 33 'single-fault' kinds = benign, str-subclass results, "
+             "and for each fault in {raise Exception, raise non-Exception BaseException, raise an exception whose own "
+             "str/repr raise, return bytes, return None, return int}: only str / only repr / only format / str+repr / "
+             "all three.  quick: (A) full root x path x conversion product under 5 kinds with a well-behaved repr, "
+             "8 roots x 18 paths x {none, !r} under 2 repr-hostile kinds; (B) 9 core fields x {none, !r, !s} x (all "
+             "specs alone + all contexts without spec) under the 15 single-fault kinds with a well-behaved repr, 4 "
+             "fields x {none, !r} x (6 specs + 6 contexts) under the 18 repr-hostile ones; (C) 4 fields x {none, !r} "
+             "x all 33 kinds through every formatter and all 8 eventAsText flag combinations.  thorough: (A) full "
+             "product under all 33 kinds; (B) core fields x 3 conversions x specs x contexts under the 15 kinds, "
+             "(specs + contexts) under the 18 repr-hostile kinds, 4 fields x 2 conversions x 6 specs under all 720 "
+             "(s, r, f) kinds; (C) as quick with 9 fields; plus 15000 seeded random formats of 1..4 random fields "
+             "with random literal text under random kinds.  (A), (B), random: formatEvent and "
+             "formatEventAsClassicLogText")
     functions = ["formatEvent", "_formatEvent", "eventAsText", "formatEventAsClassicLogText", "formatWithCall",
                  "keycall", "PotentialCallWrapper.__getattr__", "PotentialCallWrapper.__getitem__",
                  "PotentialCallWrapper.__format__", "CallMapping.__getitem__", "formatUnformattableEvent"]
 
     def cases(self, tier, rng):
+        quick = tier == "quick"
         single = single_fault_kinds()
-        few = [BENIGN, ("exc", "ok", "dflt"), ("ok", "exc", "dflt"), ("ok", "ok", "exc"), ("base", "base", "base"),
-               ("badexc", "badexc", "badexc"), ("bytes", "none", "int"), ("none", "bytes", "bytes"),
-               ("exc", "exc", "exc")]
-        for kind in (few if tier == "quick" else single):
-            for root in ROOTS:
-                for path in PATHS:
-                    for conv in CONVS:
-                        yield ("{" + root + path + conv + "}", kind, "d")
-        for kind in (single if tier == "quick" else all_kinds()):
-            for f in _CORE_FIELDS:
-                for conv in ("", "!r", "!s"):
-                    for spec in SPECS:
-                        field = "{" + f + conv + spec + "}"
-                        if tier == "quick" or kind in single:
-                            for ctx in CONTEXTS:
-                                yield (ctx.replace("%s", field), kind, "d")
-                        else:
-                            yield (field, kind, "d")
+        # (A) one field, no specification
+        if quick:
+            kinds_a = [BENIGN, ("exc", "ok", "dflt"), ("ok", "ok", "exc"), ("base", "ok", "base"),
+                       ("bytes", "ok", "none"), ("ok", "exc", "dflt"), ("badexc", "badexc", "badexc")]
+        else:
+            kinds_a = single
+        for kind in kinds_a:
+            slow = quick and repr_is_hostile(kind)
+            for root in (SLOW_ROOTS if slow else ROOTS):
+                for path in (SLOW_PATHS if slow else PATHS):
+                    for conv in (("", "!r") if slow else CONVS):
+                        yield ("{" + root + path + conv + "}", kind, "lite")
+        # (B) specifications and contexts
         for kind in single:
-            for f in _CORE_FIELDS:
+            slow = repr_is_hostile(kind)
+            if slow and quick:
+                fields, convs, specs, ctxs = SLOW_FIELDS, ("", "!r"), SLOW_SPECS, SLOW_CONTEXTS
+            else:
+                fields, convs, specs, ctxs = CORE_FIELDS, ("", "!r", "!s"), SPECS, CONTEXTS
+            for f in fields:
+                for conv in convs:
+                    if quick or slow:
+                        for spec in specs:
+                            yield ("{" + f + conv + spec + "}", kind, "lite")
+                        for ctx in ctxs[1:]:
+                            yield (ctx.replace("%s", "{" + f + conv + "}"), kind, "lite")
+                    else:
+                        for spec in specs:
+                            for ctx in ctxs:
+                                yield (ctx.replace("%s", "{" + f + conv + spec + "}"), kind, "lite")
+        if not quick:
+            for kind in all_kinds():
+                if kind in single:
+                    continue
+                for f in SLOW_FIELDS:
+                    for conv in ("", "!r"):
+                        for spec in SLOW_SPECS:
+                            yield ("{" + f + conv + spec + "}", kind, "lite")
+        # (C) every formatter and every flag combination
+        for kind in single:
+            for f in (SLOW_FIELDS if quick else CORE_FIELDS):
                 for conv in ("", "!r"):
                     yield ("{" + f + conv + "}", kind, "flags")
-        if tier != "quick":
+        if not quick:
             kinds = all_kinds()
             text = ("", "", " ", "x", "{{", "}}", "{", "}", "\n", "\xe9")
-            for _ in range(20000):
+            for _ in range(15000):
                 parts = []
                 for _i in range(rng.randint(1, 4)):
                     parts.append(rng.choice(text))
                     parts.append("{" + rng.choice(ROOTS) + rng.choice(PATHS) + rng.choice(PATHS[:27]) * rng.randint(0, 1)
                                  + rng.choice(CONVS) + rng.choice(SPECS) + "}")
                 parts.append(rng.choice(text))
-                yield ("".join(parts), rng.choice(kinds), "d")
+                yield ("".join(parts), rng.choice(kinds), "lite")
 
     def check(self, case):
         fmt, kind, mode = case
-        flags = FLAG_COMBOS if mode == "flags" else ((True, True, True),)
-        return self._run(case, lambda: _check_new_api(lambda: _grammar_event(fmt, kind), flags))
+        if mode == "flags":
+            return self._run(case, lambda: _check_new_api(lambda: _grammar_event(fmt, kind), FLAG_COMBOS))
+        return self._run(case, lambda: _check_new_api(lambda: _grammar_event(fmt, kind), lite=True))
 
 
 # ---------------------------------------------------------------------------------------------------------------------
@@ -740,70 +796,103 @@ def _meta_event(fmt, time, system, level, namespace, failure):
     return ev
 
 
-class OddMetaFields(_Base):
-    title = ("events with odd log_time / log_system / log_level / log_namespace / log_failure: eventAsText (all 8 "
-             "flag combinations), formatEvent and formatEventAsClassicLogText return text")
-    scope = ("log_time in 26 values (absent, None, 0, 0.0, -1, 1.5, 1.6e9, True, years 5138 / 10000 / 0, +-1e18, 2**63, "
-             "2**31, NaN, +-inf, 'bad', '1', b'1', [], tuple, Decimal, complex, hostile object); log_system in 14 "
-             "(absent, None, text, '', bytes, int, tuple, str subclass, objects whose str raises Exception / "
-             "BaseException / exception with raising str or returns bytes / None / int); log_level in 15 (absent, "
-             "None, LogLevel constants, text, int, objects whose .name is text / None / int / hostile / raises); "
-             "log_namespace in 14 (absent, None, text, '', bytes, int, str subclass, objects whose format / str "
-             "raise or return non-text); log_failure in 18 (absent, real Failures incl. of an exception with raising "
-             "str, of a BaseException, with a hostile exception argument, with captured hostile locals, None, text, "
-             "object(), hostile object, objects whose getTraceback returns text / str subclass / bytes / None / int "
-             "or raises Exception / BaseException / exception with raising str); log_format in 6 (absent, None, '', "
-             "text, hostile field, bytes).  Slices enumerated exhaustively: time x format x failure{absent, real, "
-             "tb-exc} ; failure x format x time{absent, 0, 'bad'}; system x level x namespace x format{text, absent} "
-             "x failure{absent, real}; every slice under all 8 eventAsText flag combinations; thorough adds the "
-             "full time x failure x format product and 30000 seeded random draws of all six fields")
+class _Meta(_Base):
+    """Cases are (log_format, log_time, log_system, log_level, log_namespace, log_failure) value names."""
+
     functions = ["eventAsText", "formatEvent", "formatEventAsClassicLogText", "formatTime", "_formatSystem",
                  "_formatTraceback", "_formatEvent"]
-
-    def cases(self, tier, rng):
-        seen = set()
-
-        def emit(c):
-            if c not in seen:
-                seen.add(c)
-                return True
-            return False
-
-        for t in TIME_VALUES:
-            for f in META_FORMATS:
-                for fa in (("absent", "real", "tb-exc") if tier == "quick" else FAILURE_NAMES):
-                    c = (f, t, "absent", "absent", "absent", fa)
-                    if emit(c):
-                        yield c
-        for fa in FAILURE_NAMES:
-            for f in META_FORMATS:
-                for t in ("absent", "zero", "text"):
-                    c = (f, t, "absent", "absent", "absent", fa)
-                    if emit(c):
-                        yield c
-        for s in SYSTEM_NAMES:
-            for lv in LEVEL_NAMES:
-                for ns in NAMESPACE_NAMES:
-                    for f in ("text", "absent"):
-                        for fa in ("absent", "real"):
-                            if f == "absent" and fa == "absent" and tier == "quick":
-                                continue  # documented: empty text, nothing else is looked at
-                            c = (f, "absent", s, lv, ns, fa)
-                            if emit(c):
-                                yield c
-        if tier != "quick":
-            times = list(TIME_VALUES)
-            for _ in range(30000):
-                c = (rng.choice(META_FORMATS), rng.choice(times), rng.choice(SYSTEM_NAMES), rng.choice(LEVEL_NAMES),
-                     rng.choice(NAMESPACE_NAMES), rng.choice(FAILURE_NAMES))
-                if emit(c):
-                    yield c
 
     def nontrivial(self, case):
         return True
 
     def check(self, case):
         return _check_new_api(lambda: _meta_event(*case), FLAG_COMBOS)
+
+
+_META_VALUES = "log_time in 26 values (absent, None, 0, 0.0, -1, 1.5, 1.6e9, True, years 5138 / 10000 / 0, +-1e18, " \
+               "2**63, 2**31, NaN, +-inf, 'bad', '1', b'1', [], tuple, Decimal, complex, hostile object)"
+
+
+class OddTime(_Meta):
+    title = ("events with an odd log_time: eventAsText (all 8 flag combinations), formatEvent, _formatEvent and "
+             "formatEventAsClassicLogText (default formatTime) return text")
+    scope = (_META_VALUES + " x log_format in 6 (absent, None, '', text, field of a value whose str raises, bytes) x "
+             "log_failure in {absent, a real Failure}; the other fields absent; exhaustive")
+
+    def cases(self, tier, rng):
+        for t in TIME_VALUES:
+            for f in META_FORMATS:
+                for fa in ("absent", "real"):
+                    yield (f, t, "absent", "absent", "absent", fa)
+
+
+class OddSystem(_Meta):
+    title = ("events with odd log_system / log_level / log_namespace: eventAsText (all 8 flag combinations), "
+             "formatEvent, _formatEvent and formatEventAsClassicLogText return text")
+    scope = ("log_system in 14 (absent, None, text, '', bytes, int, tuple, str subclass, objects whose str raises "
+             "Exception / non-Exception BaseException / an exception with raising str, or returns bytes / None / int) "
+             "x log_level in 15 (absent, None, LogLevel.info, LogLevel.critical, text, int, objects whose .name is "
+             "text / None / int / a value with raising or bytes format / raising str, whose .name raises Exception / "
+             "BaseException, object without .name) x log_namespace in 14 (absent, None, text, '', bytes, int, str "
+             "subclass, objects whose format raises Exception / BaseException / exception with raising str or "
+             "returns bytes / None, whose str raises / returns bytes) x (log_format, log_failure) in {(text, absent), "
+             "(text, real Failure), (absent, real Failure)}, thorough also (absent, absent); valid or absent log_time; "
+             "exhaustive")
+
+    def cases(self, tier, rng):
+        for s in SYSTEM_NAMES:
+            for lv in LEVEL_NAMES:
+                for ns in NAMESPACE_NAMES:
+                    for f, fa in (("text", "absent"), ("text", "real"), ("absent", "real"), ("absent", "absent")):
+                        if (f, fa) == ("absent", "absent") and tier == "quick":
+                            continue  # documented: empty text, nothing else is looked at
+                        yield (f, "absent" if fa == "absent" else "now-ish", s, lv, ns, fa)
+
+
+class OddFailure(_Meta):
+    title = ("events with an odd log_failure: eventAsText (all 8 flag combinations), formatEvent, _formatEvent and "
+             "formatEventAsClassicLogText return text")
+    scope = ("log_failure in 18 (absent, real Failures: of ValueError, of an exception whose own str and repr raise, "
+             "of a non-Exception BaseException, of a KeyError carrying a hostile argument, with captured hostile "
+             "locals; None, text, object(), hostile object; objects whose getTraceback returns text / str subclass / "
+             "bytes / None / int or raises Exception / BaseException / an exception with raising str) x log_format in "
+             "6 (absent, None, '', text, field of a value whose str raises, bytes) x log_time in {absent, 0, 1.6e9}; "
+             "the other fields absent; exhaustive")
+
+    def cases(self, tier, rng):
+        for fa in FAILURE_NAMES:
+            for f in META_FORMATS:
+                for t in ("absent", "zero", "now-ish"):
+                    yield (f, t, "absent", "absent", "absent", fa)
+
+
+class OddMetaCombined(_Meta):
+    title = ("events in which two (thorough: all) of log_format / log_time / log_system / log_level / log_namespace "
+             "/ log_failure are odd at once: eventAsText (all 8 flag combinations), formatEvent, _formatEvent and "
+             "formatEventAsClassicLogText return text")
+    scope = ("value lists of OddTime / OddSystem / OddFailure; every pair of the six fields takes every pair of its "
+             "values while the remaining fields are at their plain value (log_format text, others absent): all "
+             "2-way combinations, exhaustive; thorough adds 30000 seeded random draws of all six fields")
+
+    def cases(self, tier, rng):
+        dims = (META_FORMATS, tuple(TIME_VALUES), SYSTEM_NAMES, LEVEL_NAMES, NAMESPACE_NAMES, FAILURE_NAMES)
+        plain = ("text", "absent", "absent", "absent", "absent", "absent")
+        seen = set()
+        for i, j in itertools.combinations(range(6), 2):
+            for vi in dims[i]:
+                for vj in dims[j]:
+                    c = list(plain)
+                    c[i], c[j] = vi, vj
+                    c = tuple(c)
+                    if c not in seen:
+                        seen.add(c)
+                        yield c
+        if tier != "quick":
+            for _ in range(30000):
+                c = tuple(rng.choice(d) for d in dims)
+                if c not in seen:
+                    seen.add(c)
+                    yield c
 
 
 # ---------------------------------------------------------------------------------------------------------------------
@@ -817,91 +906,115 @@ def _legacy_dict(kind):
     return {"a": Val(kind), "message": (), "isError": 0, "system": "-", "time": 0.0}
 
 
-class LegacyText(_Base):
-    title = ("twisted.python.log: _safeFormat returns text for every short %-format (str and bytes) over hostile "
-             "values; textFromEventDict returns text or None for hostile message / why / failure / format")
-    scope = ("part 1: _safeFormat(fmt, dict) and textFromEventDict with format=fmt, fmt = every string over the 9 "
-             "characters '%()azsrd*' of length <= 4 (thorough 5) plus '%(a)' + every string of length <= 2 (thorough "
-             "3), each as str and as bytes, and None / int / list / hostile formats; dict value a of 5 kinds (thorough "
-             "all 33 single-fault kinds); part 2: textFromEventDict for message tuples of 0..2 items from {text, bytes, "
-             "invalid UTF-8 bytes, None, int, hostile} x isError {0, 1} x failure in 18 values (as in OddMetaFields) x "
-             "why in 8 (absent, None, '', text, bytes, int, hostile str raising / returning bytes) x format {absent, "
-             "'%(a)s', b'x'}; message and isError are always present (documented as required); exhaustive")
+def _legacy_kinds(tier):
+    if tier != "quick":
+        return single_fault_kinds()
+    return [BENIGN, ("exc", "exc", "exc"), ("bytes", "none", "int"), ("base", "base", "base"),
+            ("badexc", "badexc", "badexc")]
+
+
+class LegacyFormat(_Base):
+    title = ("twisted.python.log: _safeFormat(fmt, dict) returns text, and textFromEventDict with format=fmt returns "
+             "text, for every short %-format, as str and as bytes, over hostile values")
+    scope = ("fmt = every string over the 9 characters '%()azsrd*' of length <= L plus '%(a)' + every string of length "
+             "<= L-2, each as str and as bytes, and None / int / list / hostile object / str subclass in place of the "
+             "format; the dict holds key a with a hostile value, and message=() isError=0 (documented as required).  "
+             "quick: L = 4 under 5 kinds (benign; str/repr/format all raising Exception / BaseException / an "
+             "exception with raising str; returning bytes / None / int).  thorough: L = 5 under benign and "
+             "all-raise-Exception, L = 4 under the other three, L = 3 under the remaining 28 single-fault kinds.  "
+             "Exhaustive")
     functions = ["_safeFormat", "textFromEventDict"]
 
     def cases(self, tier, rng):
-        n = 4 if tier == "quick" else 5
-        single = single_fault_kinds()
-        kinds = single if tier != "quick" else [BENIGN, ("exc", "exc", "exc"), ("bytes", "none", "int"),
-                                                ("base", "base", "base"), ("badexc", "badexc", "badexc")]
-        fmts = []
-        for k in range(0, n + 1):
-            fmts.extend("".join(t) for t in itertools.product(PERCENT_ALPHABET, repeat=k))
-        for k in range(0, n - 1):
-            fmts.extend("%(a)" + "".join(t) for t in itertools.product(PERCENT_ALPHABET, repeat=k))
-        for kind in kinds:
-            for f in fmts:
-                yield ("fmt", "str", f, kind)
-                yield ("fmt", "bytes", f, kind)
+        def fmts(n):
+            return list(_strings(PERCENT_ALPHABET, 0, n)) + ["%(a)" + s for s in _strings(PERCENT_ALPHABET, 0, n - 2)]
+
+        if tier == "quick":
+            plan = [(k, 4) for k in _legacy_kinds("quick")]
+        else:
+            five = [BENIGN, ("exc", "exc", "exc")]
+            four = [k for k in _legacy_kinds("quick") if k not in five]
+            plan = ([(k, 5) for k in five] + [(k, 4) for k in four] +
+                    [(k, 3) for k in single_fault_kinds() if k not in five and k not in four])
+        for kind, n in plan:
+            for f in fmts(n):
+                yield ("str", f, kind)
+                yield ("bytes", f, kind)
             for other in ("none", "int", "list", "hostile", "strsub"):
-                yield ("fmt", other, "%(a)s", kind)
+                yield (other, "%(a)s", kind)
+
+    def check(self, case):
+        typ, f, kind = case
+        if typ == "str":
+            fmt = f
+        elif typ == "bytes":
+            fmt = f.encode("ascii")
+        else:
+            fmt = {"none": None, "int": 5, "list": [f], "hostile": Val(kind), "strsub": StrSub(f)}[typ]
+
+        def both():
+            bad = []
+            v = _violation("_safeFormat", _outcome(_legacy._safeFormat, fmt, _legacy_dict(kind)))
+            if v:
+                bad.append(v)
+            d = _legacy_dict(kind)
+            d["format"] = fmt
+            v = _violation("textFromEventDict", _outcome(_legacy.textFromEventDict, d), none_ok=True)
+            if v:
+                bad.append(v)
+            return "; ".join(bad) if bad else None
+
+        return self._run(case, both)
+
+
+class LegacyEvent(_Base):
+    title = ("twisted.python.log.textFromEventDict returns text or None for hostile message items, why, failure and "
+             "isError combinations")
+    scope = ("message = tuples of 0..2 items from {text, bytes, invalid UTF-8 bytes, None, int, hostile value} x isError "
+             "{0, 1}; for the empty message: failure in 18 values (as in OddFailure) x why in 8 (absent, None, '', "
+             "text, bytes, int, objects whose str raises / returns bytes) x format {absent, '%(a)s'}; for non-empty "
+             "messages failure {absent, real} x why {absent, str raises} x format {absent, '%(a)s'} under the benign "
+             "kind and all absent under the others; hostile value kinds: 5 (thorough 33); message and isError always "
+             "present (documented as required); exhaustive")
+    functions = ["textFromEventDict", "_safeFormat"]
+
+    def cases(self, tier, rng):
+        kinds = _legacy_kinds(tier)
         items = ("text", "bytes", "bad-utf8", "none", "int", "hostile")
         messages = [()] + [(x,) for x in items] + [(x, y) for x in items for y in items]
         whys = ("absent", "none", "empty", "text", "bytes", "int", "str-exc", "str-bytes")
-        for kind in (kinds if tier == "quick" else single):
+        for kind in kinds:
             for m in messages:
                 for is_error in (0, 1):
-                    for fa in (("absent", "real", "tb-bytes") if m else FAILURE_NAMES):
+                    for fa in (("absent", "real") if m else FAILURE_NAMES):
                         for why in (whys if not m else ("absent", "str-exc")):
-                            for f in ("absent", "%(a)s", "bytes"):
+                            for f in ("absent", "%(a)s"):
                                 if m and (fa, why, f) != ("absent", "absent", "absent") and kind is not kinds[0]:
                                     continue  # a non-empty message is documented to take priority
-                                yield ("event", m, is_error, fa, why, f, kind)
+                                yield (m, is_error, fa, why, f, kind)
+
+    def nontrivial(self, case):
+        return True
 
     def check(self, case):
-        if case[0] == "fmt":
-            _, typ, f, kind = case
-            if typ == "str":
-                fmt = f
-            elif typ == "bytes":
-                fmt = f.encode("ascii")
-            else:
-                fmt = {"none": None, "int": 5, "list": [f], "hostile": Val(kind), "strsub": StrSub(f)}[typ]
-
-            def both():
-                bad = []
-                v = _violation("_safeFormat", _outcome(_legacy._safeFormat, fmt, _legacy_dict(kind)))
-                if v:
-                    bad.append(v)
-                d = _legacy_dict(kind)
-                d["format"] = fmt
-                v = _violation("textFromEventDict", _outcome(_legacy.textFromEventDict, d), none_ok=True)
-                if v:
-                    bad.append(v)
-                return "; ".join(bad) if bad else None
-
-            return self._run(case, both)
-        _, m, is_error, fa, why, f, kind = case
+        m, is_error, fa, why, f, kind = case
 
         def item(x):
             return {"text": "t\xe9", "bytes": b"b", "bad-utf8": b"\xff", "none": None, "int": 3,
                     "hostile": Val(kind)}[x]
 
-        def run():
-            d = _legacy_dict(kind)
-            d["message"] = tuple(item(x) for x in m)
-            d["isError"] = is_error
-            if fa != "absent":
-                d["failure"] = _failure_value(fa)
-            if why != "absent":
-                d["why"] = (Val((why[4:], "ok", "dflt")) if why.startswith("str-") else
-                            {"none": None, "empty": "", "text": "why", "bytes": b"why", "int": 4}[why])
-            if f != "absent":
-                d["format"] = b"x" if f == "bytes" else f
-            return _violation("textFromEventDict", _outcome(_legacy.textFromEventDict, d), none_ok=True)
-
-        self._nontrivial.add(case)
-        return run()
+        d = _legacy_dict(kind)
+        d["message"] = tuple(item(x) for x in m)
+        d["isError"] = is_error
+        if fa != "absent":
+            d["failure"] = _failure_value(fa)
+        if why != "absent":
+            d["why"] = (Val((why[4:], "ok", "dflt")) if why.startswith("str-") else
+                        {"none": None, "empty": "", "text": "why", "bytes": b"why", "int": 4}[why])
+        if f != "absent":
+            d["format"] = f
+        return _violation("textFromEventDict", _outcome(_legacy.textFromEventDict, d), none_ok=True)
 
 
-BOUNDED = [FormatStringAlphabet, HostileFields, OddFormatsAndFallback, OddMetaFields, LegacyText]
+BOUNDED = [FormatStringAlphabet, HostileFields, OddFormatsAndFallback, OddTime, OddSystem, OddFailure,
+           OddMetaCombined, LegacyFormat, LegacyEvent]
